@@ -34,7 +34,7 @@ ANCHORS = [
     "stereomolgraph.rdmol2graph:RDMol2StereoMolGraph.smg_from_rdmol#neighbors_begin_with_none = ",
 ]
 REQUIRED_ANCHORS = ANCHORS
-REQUIRED = ["pairs_same_isomer", "label_sets", "mapnum_imports", "kind:renumber", "kind:respell", "kind:both", "options:8", "labels:SP", "labels:TB", "labels:OH", "labels:TET", "labels:EZ", "molecules_over_256_atoms"]
+REQUIRED = ["pairs_same_isomer", "label_sets", "mapnum_imports", "kind:renumber", "kind:respell", "kind:both", "options:8", "labels:SP", "labels:TB", "labels:OH", "labels:TET", "labels:EZ", "molecules_over_256_atoms", "kekule_spellings"]
 CASE_TIMEOUT = 120
 SKELETONS = [
     "CC(O)F", "CC(N)C(=O)O", "FC=CCl", "CC1CCC(C)CC1", "OCC(O)C(O)C=O", "NC(CS)C(=O)O", "CS(=O)CC", "ClC(Br)=C(F)I", "CC(Cl)C(Br)C", "CC=CC(C)O",
@@ -47,6 +47,12 @@ SKELETONS = [
     # delocalised ions and push-pull systems: several equally weighted resonance structures, whose order in RDKit's
     # resonance supplier depends on the atom numbering
     "CC(N)=[NH2+]", "NC(N)=[NH2+]", "C=C[CH2+]", "C=C[O-]", "CC1=[NH+]CCN1", "CN(C)C=[N+](C)C", "C[N+](=O)[O-]", "CC(=O)[O-]", "c1cc[nH+]cc1", "CN=[N+]=[N-]", "[NH3+]CC([O-])=O", "C1=CN=NC1", "CC(=O)C=CN", "CC(C)=[NH+]C(C)C",
+    # four-coordinate heteroatom stereocentres (no lone pair): quaternary ammonium, N-oxide, phosphonium, phosphine
+    # oxide, sulfoximine, silane - labelled by RDKit like carbon centres
+    "CC[N+](C)(CCC)CC(C)F", "C[N+]1(CC)CCCC1C", "CC[N+](C)([O-])CCC", "C=CC[N+](C)(Cc1ccccc1)c1ccccc1", "CC[P+](C)(CCC)c1ccccc1", "CCP(=O)(C)c1ccccc1",
+    "CCS(C)(=O)=NC", "CC[Si](C)(F)Cl", "C[N+]12CCC(CC1)C(O)C2",
+    # unsymmetrically substituted aromatic rings next to stereo units (the two Kekule forms are not related by a symmetry)
+    "CC(F)c1c(C)cccc1", "FC=Cc1ccccc1C", "CC(O)c1ccncc1C", "CC(Cl)c1ccc2ccccc2c1", "CC(N)c1c[nH]c2ccccc12", "CC(F)c1ccc(C=CC)o1",
 ]
 SP_T = "F[Pt@SP{}](Cl)(Br)I"
 TB_T = "F[As@TB{}](Cl)(Br)(I)N"
@@ -94,6 +100,7 @@ def _fused_alkene(rng):
 
 def gen_cases(ctx):
     rng = ctx.rng
+    nsk = 0
     n = ctx.n(7200, 90000)
     kinds = ["renumber", "respell", "both"]
     for i in range(n):
@@ -118,7 +125,8 @@ def gen_cases(ctx):
             yield {"kind": "same", "smiles": smi, "variant": kinds[(i // 8) % 3], "opt": (i // 24) % 8, "vseed": rng.randrange(1 << 30), "random_molecule": True}
             continue
         if fam < 5:
-            skel = SKELETONS[(i // 8 * 5 + fam) % len(SKELETONS)]
+            skel = SKELETONS[(nsk * ctx.nshards + ctx.shard) % len(SKELETONS)]  # jointly, the shards walk through the whole list
+            nsk += 1
             iso = isomers(skel)
             smi = iso[rng.randrange(len(iso))]
         elif fam == 5:
@@ -233,6 +241,27 @@ def check_case(ctx, case):
         return
     opt = case["opt"]
     klass = _klass(m1)
+    if OPTS[opt][1] and any(a.GetIsAromatic() for a in m1.GetAtoms()) and rng.random() < 0.6:
+        # the same molecule as RDKit holds it without aromaticity perception (read with sanitize=False, from InChI, or
+        # kekulised with cleared flags): rings spelled as alternating single / double bonds; which Kekule form is
+        # spelled depends on the atom order. With resonance on, every spelling is the same molecule. (Both partners are
+        # taken in this representation: a molecule with aromatic flags and one without are different RDKit inputs - the
+        # importer reads the flags - and comparing them is not a renumbering or respelling.)
+        try:
+            m1, m2 = Chem.Mol(m1), Chem.Mol(m2)
+            Chem.Kekulize(m1, clearAromaticFlags=True)
+            Chem.Kekulize(m2, clearAromaticFlags=True)
+            # RDKit's resonance enumeration is trusted, but on flag-less charged rings (pyridinium) it returns one or two
+            # Kekule structures depending on the atom order; such a pair is not a test of the importer
+            n1, n2 = (len(Chem.ResonanceMolSupplier(x, Chem.KEKULE_ALL)) for x in (m1, m2))
+            if n1 != n2:
+                ctx.count("skipped:rdkit-resonance-not-self-consistent")
+                return
+            kind = kind + "+kekule"
+            ctx.count("kekule_spellings")
+        except Exception:  # noqa: BLE001
+            ctx.count("skipped:rdkit-kekulize")
+            return
     ctx.count("pairs_same_isomer")
     if m1.GetNumAtoms() > 256:
         ctx.count("molecules_over_256_atoms")
